@@ -66,6 +66,8 @@ type Prop[C any] struct {
 	Gen    func(t *rapid.T) C
 	Run    func(c C, st *Stats) (msg string) // "" = held
 	Shrink time.Duration
+	// Amend, when set, is applied to a failing case before it is saved.
+	Amend func(c C) C
 }
 
 // Drive runs the property in the mode the driver asked for and writes the
@@ -127,6 +129,13 @@ func DriveWith[C any](t *testing.T, p Prop[C], cfg Config, st *Stats) {
 		msg := runSafe(c)
 		JournalDone(cfg)
 		if msg != "" {
+			if p.Amend != nil {
+				// the check may add what this process did before the case (state that a fresh
+				// process replaying the file must rebuild)
+				if ab, err := json.Marshal(p.Amend(c)); err == nil {
+					b = ab
+				}
+			}
 			st.Fail(msg, b)
 			rt.Fatalf("%s", msg)
 		}
